@@ -374,4 +374,52 @@ Definition check_C19 (kind : string) (input output : J) : verdict :=
         end
     | _ => malformed
     end
+  else if String.eqb kind "seq" then
+    (* in = [[[key, records], ...] writes in this order, [keys to read afterwards]];
+       out = one ["ok", signature id, records] | ["err", class] per key read *)
+    match input, output with
+    | JL [JL jobjs; jks], JL outs =>
+        match dec_objs jobjs, jstrs jks with
+        | Some objs, Some rkeys =>
+            let nobjs := number_objs 0 objs in
+            let recs := all_records objs in
+            let st := build_store nobjs in
+            let written := map fst objs in
+            let one (k : list N) (o : J) : option (bool * bool) :=
+              let model := cloud_read toy_de toy_dec st k in
+              match o with
+              | JL [t; JI sig; JL back] =>
+                  if jtag_is "ok" t then
+                    Some (match model with
+                          | Ok ids => jl_eqb back (map (fun i => nth i recs JN) ids) &&
+                                      (sig =? codec_id (writer_codec k))
+                          | Err _ => false
+                          end,
+                          mem_key k written && jl_eqb back (last_write objs k []))
+                  else None
+              | JL [t; e] =>
+                  if jtag_is "err" t then
+                    match dec_err e with
+                    | Some ek =>
+                        Some (match model with Err m => errkind_eqb m ek | Ok _ => false end,
+                              negb (mem_key k written) && errkind_eqb ek NotFound)
+                    | None => None
+                    end
+                  else None
+              | _ => None
+              end in
+            (fix go (ks : list (list N)) (os : list J) (a p : bool) : verdict :=
+               match ks, os with
+               | [], [] => ok_verdict a p
+               | k :: ks', o :: os' =>
+                   match one k o with
+                   | Some (a1, p1) => go ks' os' (a && a1) (p && p1)
+                   | None => malformed
+                   end
+               | _, _ => malformed
+               end) rkeys outs true true
+        | _, _ => malformed
+        end
+    | _, _ => malformed
+    end
   else malformed.
